@@ -5,10 +5,12 @@ package rules
 // Files: c10.go (registration, the retry wrapper: R-C10-1, R-C10-2), c10_pool.go (the proxy
 // side: R-C10-3, R-C10-4, R-C10-5), c10_util.go (private helpers).
 //
-// GENUINE FINDING on today's tree (left violated on purpose, see the triage files):
+// GENUINE FINDING of the first round (repaired in /repo by 6d3be8e, the obligation now holds):
 //   R-C10-5|pkg/filters/proxy.(ServerPool).doHandle|response-read failure under the deadline
-//   A backend that sends the header in time and then stalls the body past the pool timeout
-//   yields (500, internalError) instead of (408, timeout). Demo zz_triage_test.go, fix-1.diff.
+//   A backend that sent the header in time and then stalled the body past the pool timeout
+//   yielded (500, internalError) instead of (408, timeout).
+// Seeded regressions /verif/seeded/C10: a (growth factor `3 / 2` == 1) -> R-C10-2 exponential
+// growth; b (`spCtx.resp = nil` dropped) -> R-C10-4 response reset per attempt.
 //
 // Tested both ways in a scratch worktree, one edit at a time, each compiles
 // (go build ./pkg/resilience ./pkg/filters/proxy); edit scripts kept next to the triage files.
@@ -56,9 +58,9 @@ package rules
 //   P8 pool.go   `wrapped := resilience.HandlerFunc(handler)`; `if rw := sp.retryWrapper; rw != nil`
 //                nested under `if !IsStream()`; `if cb := sp.circuitBreakerWrapper; cb != nil`
 //
-// Engine quirk worked around here: a select without default makes go/cfg leave the last
-// "after case" block without successors; the engine reports it as a fall-off exit
-// (ExitReturn, Return == nil, At = the CommClause). Such exits are ignored.
+// Engine note: an earlier engine reported the "no case taken" block of a select without default
+// as a fall-off exit; that is fixed in the engine. The exit loop below still skips exits
+// without a return statement (the closure cannot fall off its end), which is harmless.
 
 import (
 	"fmt"
@@ -99,7 +101,7 @@ func c10(c *core.Ctx) string {
 	}
 	c.Assumptions = append(c.Assumptions,
 		"policy and pool fields (MaxAttempts, BackOffPolicy, waitDuration, timeout, retryWrapper, circuitBreakerWrapper) and Request.IsStream() do not change during one call of the analysed function (flow analyses run with NoHavoc)",
-		"a select without default blocks until one case is ready (the engine's 'no case taken' pseudo-exit is ignored)")
+		"a select without default blocks until one case is ready")
 
 	c10Retry(c)
 	c10Schema(c)
@@ -853,8 +855,7 @@ func c10RetryFlow(c *core.Ctx, r *c10retry, foreign ast.Node) {
 			continue
 		}
 		if ex.Return == nil {
-			// the engine reports "no case of a blocking select taken" as a fall-off exit at
-			// the comm clause: not a real path (the closure cannot fall off its end either)
+			// the closure returns an error, it cannot fall off its end
 			continue
 		}
 		exits++
